@@ -366,6 +366,7 @@ func (c *Ctx) c12TypeGainsFields() {
 func runC12(c *Ctx) error {
 	c.c12TypeGainsFields()
 	c.c12TypeRetyped()
+	c.c12OpenFinding()
 	// handwritten programs (shapes that once slipped through), run by the Go toolchain
 	if err := c.runCorpus("C12-programs"); err != nil {
 		return err
